@@ -315,6 +315,7 @@ PROPERTIES = {
             (E.E3_uff_table, "C19.4 every UFF key's element prefix has a mass", {"part": "masses"}),
             (E.E_enumeration_shape, "C19.5 angle / dihedral enumeration shape"),
             (B.B6_uff_key_prefix, "C19.4 UFF keys are looked up by the padded two-character element field"),
+            (B.B7_terms_types_coeffs_together, "C19 term list, per-term types and coefficient table are re-assigned together on every normal exit"),
             (A.A21_no_mutable_default_mutation, "C19 coefficients do not depend on the order in which types are processed: mutable defaults are never written", {"funcs": ["angle_params"]}),
         ],
         "decided": "the three assign_* functions share one pipeline (exclusion threshold = arity, canonical key, first-seen numbering, parameters of unique keys, coefficient strings in the same order); "
@@ -372,6 +373,10 @@ for _id, _sc in _SCOPES.items():
     PROPERTIES[_id]["rules"].append((G.G17_orientation_assumptions, "%s no sign test on the cell determinant; neighbour offsets are not addressed by position" % _id, {"scope": _sc}))
     PROPERTIES[_id]["rules"].append((G.G18_loop_variable_leak, "%s no read of a loop variable after a loop without break" % _id, {"scope": _sc}))
     PROPERTIES[_id]["rules"].append((G.G19_bucket_key_present, "%s occurrence tables are subscripted only with keys that occur (or through .get / a membership test)" % _id, {"scope": _sc}))
+    PROPERTIES[_id]["rules"].append((G.G20_zip_filtered_with_unfiltered, "%s parallel literal sequences are not zipped after filtering only one of them" % _id, {"scope": _sc}))
+    PROPERTIES[_id]["rules"].append((G.G21_row_position_dict, "%s tables of terms are not searched through a row -> position dict that merges equal rows" % _id, {"scope": _sc}))
+    PROPERTIES[_id]["rules"].append((G.G23_parallel_accumulators, "%s lists filled in one loop and zipped later get the same number of entries on every path" % _id, {"scope": _sc}))
+    PROPERTIES[_id]["rules"].append((G.G22_positional_order, "%s public functions keep the documented order of their positional parameters" % _id, {"scope": _sc}))
     PROPERTIES[_id]["rules"].append((G.G12_set_order, "%s a sequence made from a set is not used as an ordered selector" % _id, {"scope": _sc}))
     PROPERTIES[_id]["rules"].append((G.G10_defined_before_use, "%s every read of a local is reached by an assignment (no statement moved above the one that defines its input)" % _id, {"scope": _sc}))
     PROPERTIES[_id]["rules"].append((G.G7_api_contract_pitfalls, "%s API contracts: insertion points as indices, span versus length, memoised functions / caching properties, stored tables tested by truth value" % _id, {"scope": _sc}))
